@@ -1,5 +1,6 @@
 import Driver.Common
 import RSocketModel.Codec
+import RSocketModel.Builders
 open RSocketModel RSocketModel.Codec
 namespace Driver
 
@@ -83,5 +84,41 @@ def cmdDec (args : List String) : String :=
     | some b => dumpDecoded (decode b)
     | none => "bad-op"
   | _ => "bad-op"
+
+/-- an optional bytes argument: `N` is Python's `None`, `-` the empty bytes -/
+def kvOptHex (args : List String) (key : String) : Option (Option Bytes) :=
+  (kv args key).bind fun v => if v == "N" then some none else (ofHex v).map some
+
+open RSocketModel.Builders in
+def parseCall (args : List String) : Option Call :=
+  match args with
+  | [] => none
+  | t :: a =>
+    let pl : Option Payload := do pure ⟨← kvOptHex a "md", ← kvOptHex a "d"⟩
+    match t with
+    | "payload" => do pure (.payload (← kvNat a "sid") (← pl) (← kvBool a "C") (← kvBool a "N"))
+    | "request_n" => do pure (.requestN (← kvNat a "sid") (← kvNat a "n"))
+    | "cancel" => do pure (.cancel (← kvNat a "sid"))
+    | "request_channel" => do pure (.requestChannel (← kvNat a "sid") (← pl) (← kvNat a "n") (← kvBool a "C"))
+    | "request_stream" => do pure (.requestStream (← kvNat a "sid") (← pl) (← kvNat a "n"))
+    | "request_response" => do pure (.requestResponse (← kvNat a "sid") (← pl))
+    | "fire_and_forget" => do pure (.fnf (← kvNat a "sid") (← pl))
+    | "setup" => do
+      let p : Option Payload ← if (← kvBool a "P") then (pl.map some) else some none
+      pure (.setup p (← kvHex a "denc") (← kvHex a "mdenc") (← kvNat a "ka") (← kvNat a "life") (← kvBool a "L"))
+    | "metadata_push" => do pure (.metadataPush (← kvOptHex a "md"))
+    | "keepalive" => do pure (.keepalive (← kvOptHex a "d"))
+    | _ => none
+
+/-- `build <builder> <args>` → `<dump of the frame value> | <hex of its encoding> | <same|DIFF: the regenerated builder read back>` -/
+def cmdBuild (args : List String) : String :=
+  match parseCall args with
+  | some c =>
+    let f := RSocketModel.Builders.build c
+    let g := match RSocketModel.Builders.interp (RSocketModel.Builders.genBuild c) with
+      | some f' => if f' = f then "same" else "DIFF " ++ dumpFrame f'
+      | none => "DIFF unreadable"
+    s!"{dumpFrame f} | {hexOrDash (encode f)} | {g}"
+  | none => "bad-op"
 
 end Driver
